@@ -134,12 +134,27 @@ func (c *Ctx) csvxRun() *simpleVerdict {
 					v.undec = "SetQuoteSymbols: " + out.why
 					return
 				}
-				if _, out := h.call("SetFieldSeparators", runes(cfg.seps)); out.kind != "ok" {
+				if _, out := h.call("SetFieldSeparators", runes(cfg.seps)); out.kind == "panic" {
+					v.bad = fmt.Sprintf("SetFieldSeparators(%q) on a tokenizer whose only quote symbol is U+0001 panics: %s - a valid choice of separators is refused", string(cfg.seps), out.why)
+					return
+				} else if out.kind != "ok" {
 					v.undec = "SetFieldSeparators: " + out.why
 					return
 				}
-				if _, out := h.call("SetQuoteSymbols", runes(cfg.quotes)); out.kind != "ok" {
+				if _, out := h.call("SetQuoteSymbols", runes(cfg.quotes)); out.kind == "panic" {
+					v.bad = fmt.Sprintf("SetQuoteSymbols(%q) with separators %q panics: %s - a valid choice of quote symbols is refused", string(cfg.quotes), string(cfg.seps), out.why)
+					return
+				} else if out.kind != "ok" {
 					v.undec = "SetQuoteSymbols: " + out.why
+					return
+				}
+				// re-configuring with the same valid choice, and extending it, is valid too
+				if _, out := h.call("SetFieldSeparators", runes(cfg.seps)); out.kind == "panic" {
+					v.bad = fmt.Sprintf("SetFieldSeparators(%q) a second time panics: %s - keeping a separator already in effect is refused", string(cfg.seps), out.why)
+					return
+				}
+				if _, out := h.call("SetQuoteSymbols", runes(cfg.quotes)); out.kind == "panic" {
+					v.bad = fmt.Sprintf("SetQuoteSymbols(%q) a second time panics: %s - keeping a quote symbol already in effect is refused", string(cfg.quotes), out.why)
 					return
 				}
 				alpha := []string{"a", string(cfg.seps[0]), string(cfg.quotes[0]), "\n", "\r", "ж", "\v", "\f"}
